@@ -13,6 +13,7 @@ import typing
 
 from pydsdl import read_namespace as read_dsdl_namespace
 
+from nunavut._dependencies import DependencyBuilder
 from nunavut._generators import create_default_generators
 from nunavut._namespace import build_namespace_tree
 from nunavut._postprocessors import (
@@ -228,6 +229,14 @@ class ArgparseRunner:
                     [x for x, _ in self._root_namespace.get_all_datatypes()],
                     lambda p: str(p.source_file_path.as_posix()),
                 )
+            # Definitions found through lookup directories are inputs too: their content shapes the code
+            # generated for every type that depends on them.
+            root_datatypes = [x for x, _ in self._root_namespace.get_all_datatypes()]
+            lookup_dependencies = DependencyBuilder(*root_datatypes).transitive().composite_types
+            self._stdout_lister(
+                sorted((d for d in lookup_dependencies if d not in root_datatypes), key=lambda d: str(d.source_file_path)),
+                lambda p: str(p.source_file_path.as_posix()),
+            )
 
     def _list_configuration_only(self) -> None:
         lctx = self._language_context
